@@ -363,10 +363,16 @@ ElemForEach::sortChildren(
     // Reserve the space now...
     keys.reserve(m_sortElemsCount);
 
-    // Get some temporary strings to use for evaluting the AVTs...
-    const StylesheetExecutionContext::GetCachedString   theTemp1(executionContext);
+    // One language string per xsl:sort child: each NodeSortKey keeps a
+    // pointer to its own string.  The vector is sized once, so the
+    // strings do not move.
+    typedef XalanVector<XalanDOMString>     LangStringVectorType;
 
-    XalanDOMString&     langString = theTemp1.get();
+    LangStringVectorType    langStrings(executionContext.getMemoryManager());
+
+    langStrings.resize(
+        m_sortElemsCount,
+        XalanDOMString(executionContext.getMemoryManager()));
 
     const StylesheetExecutionContext::GetCachedString   theTemp2(executionContext);
 
@@ -378,6 +384,8 @@ ElemForEach::sortChildren(
     {
         const ElemSort* const   sort = m_sortElems[i];
         assert(sort != 0);
+
+        XalanDOMString&     langString = langStrings[i];
 
         const AVT* avt = sort->getLangAVT();
 
